@@ -285,6 +285,11 @@ class Orchestrator(object):
             self.logger.info('No scenario ')
 
         self.mgt.wait_stop_agents()
+        # The run is over (all agents have stopped): the timeout is of no use
+        # any more and nobody should wait for it (see `wait_ready`).
+        if self._timeout_timer is not None:
+            self._timeout_timer.cancel()
+        self.mgt.ready_to_run.set()
         self._own_agt.clean_shutdown()
         self._own_agt.join()
 
